@@ -595,8 +595,10 @@ class Ctx:
 class SceneMachine(Machine):
     pid = "C01"
     title = "Plasma/beam/laser changes never leave stale derived state"
-    quick_runs = 4000
+    quick_runs = 2500
     thorough_runs = 300000
+    quick_deadline = 480
+    thorough_deadline = 7200
     per_run_timeout = 120
     components_real = ["cherab.core Plasma/Beam nodes, Composition, ModelManager, PlasmaMaterial, BeamMaterial (compiled)",
                        "cherab.core.model: ExcitationLine, RecombinationLine, ThermalCXLine, Bremsstrahlung, TotalRadiatedPower, BeamCXLine, "
